@@ -447,6 +447,10 @@ func duplicateKeyIdentityRule(c *Ctx) {
 		}
 		n++
 		o := c.Ob(fn, "duplicate-key", at, c.rule.Statement)
+		if where := bookkeepingMapInLoop(fn); where != "" {
+			o.Fail("the map that remembers the objects seen so far is created inside a loop (%s): it forgets everything at the next file / phase, so the same object declared in two files is not reported as a duplicate and both copies roll out", where)
+			continue
+		}
 		s := &c16Slice{p: p, seen: map[ssa.Value]bool{}}
 		for _, k := range keys {
 			s.walk(k, 3)
@@ -474,6 +478,55 @@ func duplicateKeyIdentityRule(c *Ctx) {
 	if n == 0 {
 		c.AnchorLost("duplicate-object bookkeeping map in " + pkgPkgValid)
 	}
+}
+
+// bookkeepingMapInLoop: a map made in fn that is looked up and updated with the same kind of key is
+// allocated inside a loop (position of the make, "" = no).
+func bookkeepingMapInLoop(fn *ssa.Function) string {
+	loops := loopsOf(fn)
+	makeOf := func(v ssa.Value) *ssa.MakeMap {
+		v = stripConv(v)
+		if u, ok := v.(*ssa.UnOp); ok && u.Op == token.MUL {
+			if a, ok := u.X.(*ssa.Alloc); ok {
+				for _, r := range *a.Referrers() {
+					if st, ok := r.(*ssa.Store); ok && st.Addr == ssa.Value(a) {
+						if mk, isMake := stripConv(st.Val).(*ssa.MakeMap); isMake {
+							return mk
+						}
+					}
+				}
+			}
+			return nil
+		}
+		mk, _ := v.(*ssa.MakeMap)
+		return mk
+	}
+	read, written := map[*ssa.MakeMap]bool{}, map[*ssa.MakeMap]bool{}
+	for _, b := range fn.Blocks {
+		for _, in := range b.Instrs {
+			switch x := in.(type) {
+			case *ssa.Lookup:
+				if mk := makeOf(x.X); mk != nil {
+					read[mk] = true
+				}
+			case *ssa.MapUpdate:
+				if mk := makeOf(x.Map); mk != nil {
+					written[mk] = true
+				}
+			}
+		}
+	}
+	for mk := range read {
+		if !written[mk] {
+			continue
+		}
+		for _, l := range loops {
+			if l.Body[mk.Block()] {
+				return "make at line " + itoa(mk.Parent().Prog.Fset.Position(mk.Pos()).Line)
+			}
+		}
+	}
+	return ""
 }
 
 func localMap(v ssa.Value) bool {
